@@ -438,16 +438,16 @@ class SweepMachine:
                 self.counts['calls'] += 1
                 ok = k0 is not None and k1 is not None and k1 == k0 + ONE
                 self.rep.add('slot', s, ok, f'`{norm(value)}` merges neighbouring sites k, k+1 in this order')
-                if ok:
-                    x.temps[targets[0].id] = ('merged', k0, k1)
+                if k0 is not None and k1 is not None:
+                    x.temps[targets[0].id] = ('merged', k0, k0 + ONE)
                 return st
             if f == 'merge_mpo_tensor_pair' and len(a) == 2 and len(targets) == 1 and isinstance(targets[0], ast.Name):
                 k0, k1 = x.site_ref(a[0], self.ham), x.site_ref(a[1], self.ham)
                 self.counts['calls'] += 1
                 ok = k0 is not None and k1 is not None and k1 == k0 + ONE
                 self.rep.add('slot', s, ok, f'`{norm(value)}` merges neighbouring MPO sites k, k+1 in this order')
-                if ok:
-                    x.temps[targets[0].id] = ('merged_op', k0, k1)
+                if k0 is not None and k1 is not None:
+                    x.temps[targets[0].id] = ('merged_op', k0, k0 + ONE)
                 return st
             if f in ('_local_hamiltonian_step', '_minimize_local_energy'):
                 return self.local_step(s, targets, value, st)
